@@ -457,6 +457,34 @@ func TestVerif_C02(t *testing.T) {
 				}
 			}
 		}
+		// size-changing overwrites of an existing compact attribute that bring the header to every
+		// total in [246,264] (the single-chunk limit is 255): from three fill states, with and
+		// without a neighbour behind the header
+		if len(totals) > 0 {
+			picks := []int{totals[0], totals[len(totals)/2], totals[len(totals)-1]}
+			for _, t := range picks {
+				var hName string
+				hLen := -1
+				for _, o := range fills[t] {
+					if o.Op == "attr" && strings.HasPrefix(o.Value, "str:") {
+						hName = o.Name
+						fmt.Sscanf(o.Value, "str:%d", &hLen)
+					}
+				}
+				if hLen < 0 {
+					continue
+				}
+				for target := 246; target <= 264; target++ {
+					n := hLen + (target - t)
+					if n < 1 {
+						continue
+					}
+					ow := vfOp{Op: "attr", Path: "/d", Name: hName, Value: fmt.Sprintf("str:%d", n)}
+					jobs = append(jobs, cj{t, append(append([]vfOp{}, fills[t]...), ow)})
+					jobs = append(jobs, cj{t, append(append(append([]vfOp{}, fills[t]...), neighbours[0]...), ow)})
+				}
+			}
+		}
 		vkit.ParallelFor(len(jobs), func(i int) {
 			j := jobs[i]
 			ex := vfRun(dir, nil, j.h, true)
